@@ -19,8 +19,8 @@ Open Scope Z_scope.
    min(request, eligible) (request 0 = all eligible), eligible = valid events
    if remove_invalid else all events, the number of valid events among them
    is min(request, valid) in both modes (invalid events only fill up), and
-   with remove_invalid only valid events are selected. Guards: no axis whose valid values are all equal
-   when the grid step runs (C16-grid-constant-axis) and request <= N when
+   with remove_invalid only valid events are selected. Guards: no axis whose valid (>= 4) values are all equal
+   when the grid step runs on four or more valid points (C16-grid-constant-axis) and request <= N when
    remove_invalid is False (C16-grid-pad-overrequest). *)
 Theorem C16_grid_subset_count_partial :
   forall (rng : Type) (seed47 : rng) (choice_st : rng -> Z -> Z -> list Z * rng),
@@ -88,14 +88,16 @@ Theorem C16_rand_subset_count :
 Proof. exact rand_count. Qed.
 Print Assumptions C16_rand_subset_count.
 
-(* "limit events" (Filter.update step 4), full statement, every limit
-   including limits larger than the data: the result is a subset of the
+(* "limit events" (Filter.update step 4, with fix C16-cap-request), full
+   statement, every limit including limits larger than the data and beyond
+   2^32 (datasets with fewer than 2^32 events): the result is a subset of the
    combined filter with min(limit, filtered) events (all of them if the limit
    is 0 or negative). *)
 Theorem C16_limit_events_subset_count :
   forall (rng : Type) (seed47 : rng) (choice_st : rng -> Z -> Z -> list Z * rng),
     choice_ok seed47 choice_st ->
     forall (g : rng) (arr_all : list bool) (limit : Z),
+      zlen arr_all < 4294967296 ->
       exists m g',
         limit_events rng seed47 choice_st g arr_all limit = (inl m, g') /\
         subset_mask m arr_all = true /\
@@ -112,6 +114,7 @@ Theorem C16_filter_all_subset_count :
     choice_ok seed47 choice_st ->
     forall (g : rng) (box invalid polygon manual : list bool) (enable : bool)
            (limit : Z),
+      zlen box < 4294967296 ->
       let comb := map2 andb (map2 andb (map2 andb box invalid) polygon) manual in
       exists m g',
         filter_all rng seed47 choice_st g box invalid polygon manual enable limit
@@ -124,41 +127,116 @@ Theorem C16_filter_all_subset_count :
 Proof. exact filter_all_count. Qed.
 Print Assumptions C16_filter_all_subset_count.
 
-(* get_downsampled_scatter(ret_mask=True): the mask has len(ds) entries, lies
-   inside filter.all, selects exactly the returned x and y values of the
-   unscaled features, and has min(request, eligible) entries; same guards as
-   for downsample_grid, on the filtered and scaled data. *)
+(* get_downsampled_scatter(ret_mask=True) with fix C16-cap-request, every
+   request size >= 0 incl. sizes beyond the data and beyond 2^32, both modes,
+   linear (scaled = the feature itself) or log scale per axis: the mask has
+   len(ds) entries, lies inside filter.all, selects exactly the returned x and
+   y values of the unscaled features, has min(request, eligible) entries;
+   valid (after scaling) events come first, invalid ones only fill up; with
+   remove_invalid none is returned. Remaining guard: C16-grid-constant-axis
+   on the filtered, scaled data. *)
 Theorem C16_scatter_mask_translation_partial :
   forall (rng : Type) (seed47 : rng) (choice_st : rng -> Z -> Z -> list Z * rng),
     choice_ok seed47 choice_st ->
-    forall (g : rng) (xf yf xsf ysf : list fval) (fall : list bool)
-           (ds : Z) (ri : bool),
+    forall (g : rng) (xf yf xlf ylf : list fval) (xlog ylog : bool)
+           (fall : list bool) (ds : Z) (ri : bool),
       length xf = length fall -> length yf = length fall ->
-      length xsf = length fall -> length ysf = length fall ->
-      0 <= ds ->
-      no_constant_axis (select fall xsf) (select fall ysf) ds = true ->
-      (ri = false -> ds <= count_true fall) ->
-      exists mask g',
-        scatter_ds rng seed47 choice_st g xf yf xsf ysf fall ds ri
+      length xlf = length fall -> length ylf = length fall ->
+      zlen fall < 4294967296 -> 0 <= ds ->
+      let xs := select fall (apply_scale xlog xf xlf) in
+      let ys := select fall (apply_scale ylog yf ylf) in
+      no_constant_axis xs ys (Z.min ds (count_true fall)) = true ->
+      exists idx mask g',
+        scatter_ds rng seed47 choice_st g xf yf xlf ylf xlog ylog fall ds ri
         = (Ok (select mask xf) (select mask yf) mask, g') /\
+        mask = scatter fall idx (zeros fall) /\
         length mask = length fall /\
         subset_mask mask fall = true /\
         count_true mask =
-          spec_count ds (if ri
-                         then count_true (good_mask (select fall xsf)
-                                                    (select fall ysf))
-                         else count_true fall).
+          spec_count ds (if ri then count_true (good_mask xs ys)
+                         else count_true fall) /\
+        length idx = length xs /\
+        count_true (map2 andb idx (good_mask xs ys))
+        = spec_count ds (count_true (good_mask xs ys)) /\
+        (ri = true -> subset_mask idx (good_mask xs ys) = true).
 Proof. exact scatter_count. Qed.
 Print Assumptions C16_scatter_mask_translation_partial.
 
-Theorem C16_scatter_overrequest_refuted :
-  exists xf yf fall ds,
-    length xf = length fall /\ length yf = length fall /\ 0 <= ds /\
-    forall (rng : Type) (seed47 : rng) choice_st g,
-      fst (scatter_ds rng seed47 choice_st g xf yf xf yf fall ds false)
-      = Err ErrValue.
-Proof. exact scatter_overrequest_refuted. Qed.
-Print Assumptions C16_scatter_overrequest_refuted.
+(* Eligibility in terms of the features themselves: if the logarithm is
+   nan/inf exactly for nan/inf/non-positive arguments (log_ok, checked by the
+   harness on every scaled array), the valid events of the scatter theorem
+   are the filtered events whose x and y are finite (linear axis) resp.
+   finite and positive (log axis). *)
+Theorem C16_scatter_eligible_events :
+  forall (xf yf xlf ylf : list fval) (xlog ylog : bool) (fall : list bool),
+    length xf = length yf -> length xlf = length xf -> length ylf = length yf ->
+    log_ok xf xlf -> log_ok yf ylf ->
+    good_mask (select fall (apply_scale xlog xf xlf))
+              (select fall (apply_scale ylog yf ylf))
+    = select fall (scaled_good xlog ylog xf yf).
+Proof. exact scaled_good_mask. Qed.
+Print Assumptions C16_scatter_eligible_events.
+
+(* The request as the callers pass it: within 0 .. 2^32-1 the conversion
+   np.uint32(samples) is the identity and the array theorems apply ... *)
+Theorem C16_grid_request_partial :
+  forall (rng : Type) (seed47 : rng) (choice_st : rng -> Z -> Z -> list Z * rng),
+    choice_ok seed47 choice_st ->
+    forall (g : rng) (np_scalar : bool) (a b : list fval) (samples : Z) (ri : bool),
+      length a = length b -> 0 <= samples < 4294967296 ->
+      no_constant_axis a b samples = true ->
+      (ri = false -> samples <= zlen a) ->
+      exists keep g',
+        downsample_grid_req rng seed47 choice_st g np_scalar a b samples ri
+        = (Ok (select keep a) (select keep b) keep, g') /\
+        length keep = length a /\
+        count_true keep = spec_count samples
+                            (if ri then count_true (good_mask a b) else zlen a) /\
+        count_true (map2 andb keep (good_mask a b))
+        = spec_count samples (count_true (good_mask a b)) /\
+        (ri = true -> subset_mask keep (good_mask a b) = true).
+Proof. exact grid_req_count. Qed.
+Print Assumptions C16_grid_request_partial.
+
+Theorem C16_rand_request_partial :
+  forall (rng : Type) (seed47 : rng) (choice_st : rng -> Z -> Z -> list Z * rng),
+    choice_ok seed47 choice_st ->
+    forall (g : rng) (np_scalar : bool) (a : list fval) (samples : Z) (ri : bool),
+      0 <= samples < 4294967296 ->
+      exists idx g',
+        downsample_rand_req rng seed47 choice_st g np_scalar a samples ri
+        = (Ok (select idx a) [] idx, g') /\
+        length idx = length a /\
+        count_true idx = spec_count samples
+                           (if ri then count_true (map negb (map is_bad a))
+                            else zlen a) /\
+        (ri = true -> subset_mask idx (map negb (map is_bad a)) = true).
+Proof. exact rand_req_count. Qed.
+Print Assumptions C16_rand_request_partial.
+
+(* ... beyond that the full statement is false (finding C16-request-uint32):
+   a Python int raises OverflowError, *)
+Theorem C16_request_overflow_refuted :
+  exists a samples,
+    0 <= samples /\
+    (forall (rng : Type) (seed47 : rng) choice_st g ri,
+       fst (downsample_rand_req rng seed47 choice_st g false a samples ri)
+       = Err ErrOverflow) /\
+    (forall (rng : Type) (seed47 : rng) choice_st g ri,
+       fst (downsample_grid_req rng seed47 choice_st g false a a samples ri)
+       = Err ErrOverflow).
+Proof. exact request_overflow_refuted. Qed.
+Print Assumptions C16_request_overflow_refuted.
+
+(* a numpy integer wraps modulo 2^32: 3 of 5 events for a request of 2^32+3 *)
+Theorem C16_request_wrap_refuted :
+  exists a samples idx,
+    0 <= samples /\ count_true idx <> spec_count samples (zlen a) /\
+    fst (downsample_rand_req unit tt (fun _ n k => (arange (Z.to_nat k), tt)) tt
+                             true a samples false)
+    = Ok (select idx a) [] idx.
+Proof. exact request_wrap_refuted. Qed.
+Print Assumptions C16_request_wrap_refuted.
 
 (* Reproducibility: the result does not depend on the state of the global
    generator at the time of the call (every draw is preceded by set_state of
@@ -189,10 +267,10 @@ Print Assumptions C16_limit_events_deterministic.
 
 Theorem C16_scatter_deterministic :
   forall (rng : Type) (seed47 : rng) (choice_st : rng -> Z -> Z -> list Z * rng)
-         (g1 g2 : rng) (xf yf xsf ysf : list fval) (fall : list bool)
-         (ds : Z) (ri : bool),
-    fst (scatter_ds rng seed47 choice_st g1 xf yf xsf ysf fall ds ri)
-    = fst (scatter_ds rng seed47 choice_st g2 xf yf xsf ysf fall ds ri).
+         (g1 g2 : rng) (xf yf xlf ylf : list fval) (xlog ylog : bool)
+         (fall : list bool) (ds : Z) (ri : bool),
+    fst (scatter_ds rng seed47 choice_st g1 xf yf xlf ylf xlog ylog fall ds ri)
+    = fst (scatter_ds rng seed47 choice_st g2 xf yf xlf ylf xlog ylog fall ds ri).
 Proof. exact scatter_state_independent. Qed.
 Print Assumptions C16_scatter_deterministic.
 
@@ -222,6 +300,12 @@ Theorem C16_source_cell_index :
     gen_cell z mn mx = ((z - mn) * 299) / (mx - mn).
 Proof. exact gen_cell_is_model. Qed.
 Print Assumptions C16_source_cell_index.
+
+(* keyword defaults of the .pyx signatures *)
+Theorem C16_source_defaults :
+  gen_grid_defaults = (false, false) /\ gen_rand_defaults = (false, false).
+Proof. exact gen_defaults_are_false. Qed.
+Print Assumptions C16_source_defaults.
 
 (* downsample_grid assembled from the translated guard, diff, remove / add /
    pad conditions and amounts equals the model *)
